@@ -982,8 +982,17 @@ pub fn groups(n: &Node, out: &mut Vec<usize>) {
     }
 }
 
-/// Flatten to the token list in text order; `perms[g] = alt` (1-based alternative) permutes group g.
-pub fn flatten(n: &Node, perms: &[(usize, usize)], depth: u8, gctr: &mut usize, out: &mut Vec<Tok>) {
+/// A node is a permutation group iff at least two of its permutable kids differ in kind.
+fn has_group(n: &Node) -> bool {
+    n.perm && n.kids.len() >= n.fixed + 2 && n.kids[n.fixed..].iter().any(|k| k.kind != n.kids[n.fixed].kind)
+}
+fn count_groups(n: &Node) -> usize {
+    (has_group(n) as usize) + n.kids.iter().map(count_groups).sum::<usize>()
+}
+
+/// Flatten to the token list in text order; `perms` holds (group, alternative) pairs. Groups are numbered
+/// in depth-first order of the *unpermuted* tree (the numbering of `groups`), starting at `gstart`.
+pub fn flatten(n: &Node, perms: &[(usize, usize)], depth: u8, gstart: usize, out: &mut Vec<Tok>) {
     let push = |toks: &[Tok], out: &mut Vec<Tok>| {
         for (i, t) in toks.iter().enumerate() {
             let mut t = t.clone();
@@ -995,21 +1004,26 @@ pub fn flatten(n: &Node, perms: &[(usize, usize)], depth: u8, gctr: &mut usize, 
         }
     };
     push(&n.head, out);
-    let alts = group_alts(n);
     let mut order: Vec<usize> = (0..n.kids.len()).collect();
-    if !alts.is_empty() {
-        let g = *gctr;
-        *gctr += 1;
-        if let Some((_, a)) = perms.iter().find(|(gg, _)| *gg == g) {
+    let mut next = gstart;
+    if has_group(n) {
+        if let Some((_, a)) = perms.iter().find(|(gg, _)| *gg == gstart) {
+            let alts = group_alts(n);
             let p = &alts[*a];
             for (i, &j) in p.iter().enumerate() {
                 order[n.fixed + i] = n.fixed + j;
             }
         }
+        next += 1;
+    }
+    let mut starts = Vec::with_capacity(n.kids.len());
+    for k in &n.kids {
+        starts.push(next);
+        next += count_groups(k);
     }
     let kd = if n.head.is_empty() && n.kind == 0 { depth } else { depth + 1 };
     for i in order {
-        flatten(&n.kids[i], perms, kd, gctr, out);
+        flatten(&n.kids[i], perms, kd, starts[i], out);
     }
     push(&n.tail, out);
 }
@@ -1126,8 +1140,7 @@ fn flat_tokens(lib: &LefLibrary, devs: &[Dev]) -> Vec<Tok> {
     let perms: Vec<(usize, usize)> =
         devs.iter().filter_map(|d| if let Dev::Perm { group, alt } = d { Some((*group, *alt)) } else { None }).collect();
     let mut out = vec![];
-    let mut g = 0;
-    flatten(&tree, &perms, 0, &mut g, &mut out);
+    flatten(&tree, &perms, 0, 0, &mut out);
     out
 }
 
@@ -1420,6 +1433,12 @@ pub fn self_check() -> Result<(), String> {
         return Err("expected spellings missing".into());
     }
     // permutations
+    for kinds in [vec![1u16, 1], vec![1, 2], vec![1, 1, 2], vec![3, 3, 3, 3, 3], vec![1, 2, 3, 4, 5, 6]] {
+        let differ = kinds.iter().any(|k| *k != kinds[0]);
+        if perm_alts(&kinds).is_empty() == differ {
+            return Err("perm_alts emptiness".into());
+        }
+    }
     if perm_alts(&[1, 2, 3]).len() != 5 || perm_alts(&[1, 1]).len() != 0 || perm_alts(&[1, 2, 1]).len() != 2 {
         return Err("perm_alts".into());
     }
